@@ -717,7 +717,7 @@ func GenExtCase(r *common.Rng) Case {
 	rom := genSection(r, "romc", rsize, mode, mode)
 	// noLit: no immediate load anywhere, so that a jump (register + ROM address) is the widest instruction and the word
 	// width follows the ROM address width; the data section is then large (2^6 / 2^7 cells in a few lines)
-	noLit := r.Chance(1, 3)
+	noLit := r.Chance(1, 2)
 	if noLit {
 		for i := range rom.lines {
 			t := rom.lines[i].text
